@@ -219,7 +219,11 @@ def corpus():
         for ks in STACKS2:
             cases.append(_case(ks, v, 2, "huge-int", ip=False))
     # the same libraries holding instances of a user-defined subclass of Entry
-    return cases + [dict(c, sub=True) for c in cases]
+    chains = [{"src": src, "ks": ks, "cls": "chain"}
+              for src in ("jan", "3", "{March}", "\"12\"", "sept", "DECEMBER", "07", "13", "abc # jan")
+              for ks in (["toInt", "toAbbr", "toInt"], ["toAbbr", "toInt", "toAbbr"], ["toLong", "toLong"], ["toInt"],
+                         ["toLong", "toAbbr", "toLong", "toInt"], ["toAbbr", "toAbbr", "toLong"])]
+    return cases + [dict(c, sub=True) for c in cases] + chains
 
 
 ALPHABET = list("janfebmrpyulgsoctvdJANFEBMRPYULGSOCTVD0123456789") + [
@@ -295,6 +299,8 @@ def gen(tier, rng):
 # the two sides
 
 def request(case):
+    if "src" in case:
+        return None      # python-only: evaluated on the real code (impl raises when it fails)
     text = W.spec_text(case["lib"])
     if W.spec_python_only(case["lib"]) or not lean_representable(text):
         return None
@@ -312,7 +318,28 @@ def _run(case):
     return lib
 
 
+def _chain_check(case):
+    """through the entry point: parse_string(text, append_middleware=[m1, m2, ...]) applies every listed month middleware,
+    in order (also the same class twice): the month is what the chain gives on the parsed entry"""
+    import bibtexparser
+    text = "@article{k,\n title = {T},\n month = %s\n}\n" % case["src"]
+    lib = bibtexparser.parse_string(text, append_middleware=[_cls(k)() for k in case["ks"]])
+    want = bibtexparser.parse_string(text)
+    for k in case["ks"]:
+        want = _cls(k)().transform(want)
+    got_v = [(f.key, f.value, type(f.value).__name__) for b in lib.blocks for f in getattr(b, "fields", [])]
+    want_v = [(f.key, f.value, type(f.value).__name__) for b in want.blocks for f in getattr(b, "fields", [])]
+    if got_v != want_v:
+        return "parse_string(%r, append_middleware=%r) gives %r, the chain applied to the parsed library gives %r" % (text, case["ks"], got_v, want_v)
+    return None
+
+
 def impl(case):
+    if "src" in case:
+        f = _chain_check(case)
+        if f:
+            raise AssertionError(f)
+        return "(ok chain)"
     return W.ok(W.enc_blocks(_run(case).blocks))
 
 
@@ -368,6 +395,8 @@ def _month_field(entry):
 
 def oracle(case):
     from bibtexparser import model as M
+    if "src" in case:
+        return _chain_check(case)
     ks = case["ks"]
     before = W.library(case["lib"], sub=case.get("sub", False))
     try:
